@@ -49,7 +49,9 @@ def gen_command(rnd):
                             "vfds C > f3", "vfds C 2> f3", "vfds C >> f1 2>&1", "vio c | vfds C > f3", "alias > f3", "vfds C < f1"])
         return rnd.choice(["vpa $(%s)", "vpa `%s`", "B=$(%s)", "vpa x$(%s)y \"$(%s)\"".replace("%s", "%s", 1)]).replace("%s", inner)
     if k < 0.70:
-        return rnd.choice(["vio h r <<< hello", "vfds H <<< x", "vio h r < f1", "vio h r < nofile", "vst c mode=cons <<< data"])
+        return rnd.choice(["vio h r <<< hello", "vfds H <<< x", "vio h r < f1", "vio h r < nofile", "vst c mode=cons <<< data",
+                           "read V <<< word", "vio p | read V <<< foo | vst c mode=cons", "vio p | vfds H <<< x | vst c mode=cons",
+                           "alias <<< x | vio q r", "vio p | vio q r <<< mid", "vst p mode=prod,n=10 | read V <<< w"])
     if k < 0.80:
         return rnd.choice(["nosuchcmd", "vmk 7 3", "nosuchcmd a | vst c mode=cons", "vio q > /nonexistent/y", "/nonexistent/prog"])
     if k < 0.88:
